@@ -118,6 +118,17 @@ func VHRestore() {
 	w.nodes[1].Statements[0] = &tree.Statement{JumpStatement: &tree.JumpStatement{Expression: vValExpr(variable.NewString("n2"))}}
 	s := vArbSnapshot(w)
 	c := vDeepCopySnapshot(s)
+	// the receiving runner's variables: the world's four, or fewer / other names than the snapshot holds
+	switch vChoose("receiver.store", 3) {
+	case 1:
+		w.store.Clear()
+		w.store.SetNumberValue("stale", vFloat("receiver.stale"))
+	case 2:
+		w.store.Clear()
+		w.store.SetStringValue("stale1", "x")
+		w.store.SetBooleanValue("stale2", vBool("receiver.stale2"))
+		w.store.SetNumberValue("b0", 1) // same name as in the snapshot, other type
+	}
 
 	K0 := vFlatten(dr)
 	last0 := dr.lastStatement
@@ -146,7 +157,11 @@ func VHRestore() {
 	vAssert(dr.currentNode == c.node, "after a restore the current node is the snapshot's")
 	vAssert(vStoreEq(w.store.GetValues(), c.vars), "after a restore the variables are the snapshot's")
 	vAssert(vVisitsEq(dr.visitedNodes, c.visits), "after a restore the visit counts are the snapshot's")
-	vAssert(vSnapEq(dr.Snapshot(), c), "a snapshot taken right after a restore equals the restored one")
+	// (taking a snapshot is itself an operation on the runner: do it on some paths only, so that what
+	// follows is also explored on a runner nobody took a snapshot of)
+	if vChoose("snapshot.after.restore", 2) == 1 {
+		vAssert(vSnapEq(dr.Snapshot(), c), "a snapshot taken right after a restore equals the restored one")
+	}
 
 	// a second runner restored from the same snapshot
 	dr2 := vSimpleRunner(w)
